@@ -1,0 +1,6 @@
+//go:build !verif
+
+package zygo
+
+// verifStep is a no-op unless built with the "verif" tag (see verif_on.go).
+func (env *Zlisp) verifStep() error { return nil }
